@@ -46,6 +46,16 @@ fn apply_change(cfg: &Config, ch: &Value, root: &Path) {
 	if let Some(t) = ch["throttle"].as_u64() {
 		cfg.throttle(Duration::from_millis(t));
 	}
+	// replacements that do not concern the fs worker (it is woken and must leave the registrations alone)
+	if let Some(b) = ch["keyboard"].as_bool() {
+		cfg.keyboard_events(b);
+	}
+	if ch["handler"].as_bool().unwrap_or(false) {
+		cfg.on_action(|a| a);
+	}
+	if ch["error_handler"].as_bool().unwrap_or(false) {
+		cfg.on_error(|_: watchexec::ErrorHook| {});
+	}
 }
 
 static ROOT: Mutex<Option<PathBuf>> = Mutex::new(None);
@@ -154,16 +164,28 @@ async fn run(case: Value, root: &Path) -> Value {
 	let (ev_s, _ev_r) = async_priority_channel::bounded(1024);
 	let errs = Arc::new(Mutex::new(Vec::<String>::new()));
 	let e2 = errs.clone();
+	// changes issued from within the error handler: applied when the n-th runtime error is received
+	let on_err: Vec<(usize, Value, usize)> = case["changes"].as_array().unwrap().iter().enumerate()
+		.filter(|(_, c)| c["on_error"].is_u64()).map(|(k, c)| (c["on_error"].as_u64().unwrap() as usize, c.clone(), k)).collect();
+	let (cfg_e, sh_e, root_e) = (config.clone(), sh.clone(), root.to_path_buf());
 	let et = tokio::spawn(async move {
+		let mut n = 0usize;
 		while let Some(e) = er_r.recv().await {
 			let e: watchexec::error::RuntimeError = e;
 			e2.lock().unwrap().push(e.to_string());
+			for (i, ch, k) in &on_err {
+				if *i == n {
+					sh_e.lock().unwrap().calls.push(format!("change({k})"));
+					apply_change(&cfg_e, ch, &root_e);
+				}
+			}
+			n += 1;
 		}
 	});
 	let worker = tokio::spawn(watchexec::sources::fs::worker(config.clone(), er_s, ev_s));
 	tokio::time::sleep(Duration::from_millis(20)).await;
 	for (k, ch) in case["changes"].as_array().unwrap().iter().enumerate() {
-		if ch["inside_call"].is_u64() {
+		if ch["inside_call"].is_u64() || ch["on_error"].is_u64() {
 			continue;
 		}
 		sh.lock().unwrap().calls.push(format!("change({k})"));
